@@ -33,6 +33,7 @@ type loopInfo struct {
 	variant0  T
 	hasVar    bool
 	preState  *State // state before havoc (for loop-old)
+	frameHeaps []string
 }
 
 type Exec struct {
@@ -63,6 +64,8 @@ type Exec struct {
 	onRead        func(st *State, l Loc)
 	nq            int
 	wroteAll      string
+	beforeSeen    map[string]bool
+	acqSnap       map[string]*State
 	nacq          int
 	acquiredFirst string
 	wholeWrites   map[string]bool
@@ -519,6 +522,7 @@ func (ex *Exec) run() {
 	ex.outSt = map[*ssa.BasicBlock]*State{}
 	ex.edge = map[[2]int]T{}
 	ex.heapWrites = map[string]bool{}
+	ex.beforeSeen = map[string]bool{}
 	ex.wholeWrites = map[string]bool{}
 	ex.globalWrites = map[string]bool{}
 	ex.nsafe = map[string]int{}
@@ -672,6 +676,11 @@ func (ex *Exec) finish() {
 	vc := ex.vc
 	if ex.con == nil {
 		return
+	}
+	for callee := range ex.con.Before {
+		if !ex.beforeSeen[callee] {
+			ex.fail("before %s: no call of %s found (anchor missing)", callee, callee)
+		}
 	}
 	// postconditions over all returns
 	for i, en := range ex.con.Ensures {
